@@ -150,6 +150,12 @@ def specials(rng):
     for kind in ("async",):
         o = case_ops("basic", kind, 0, 0, "s", "s", "seq", 0, rng.randrange(10**6), 3000, 100)
         out.append([o[0], "loop 40 c:send:0 s:step:0", "poison", "loop 400 s:enq:1 s:step:0 c:recv:0", "final"])
+    # a buffered endpoint used through the synchronous API first (blocking, zero or limited timeout) and then handed to a
+    # driver: what the synchronous calls left in the glue (budget, cached WANT_*) must not leak into the driver's calls
+    for T in (-1, 0, 50):
+        o = case_ops("buffered", "basic", T, 0, "s", "s", "seq", rng.choice([0, 7]), rng.randrange(10**6), 100, 3000)
+        first = ["bg c s", "loop 2000 s:recv:0", "join"] if T < 0 else ["loop 60 c:send:%d s:recv:0" % T]
+        out.append([o[0]] + first + ["upgrade c", "loop 400 s:send:0 c:step:17", "final"])
     # short writes of the kernel
     for cli, srv in (("basic", "async"), ("async", "basic"), ("buffered", "buffered")):
         o = case_ops(cli, srv, 0, 50, "s", "s", "seq", 7, rng.randrange(10**6), 5000, 5000, extra="wsegc=1000 wsegs=333")
